@@ -64,6 +64,7 @@ def shapes():
         'ddict': lambda: collections.defaultdict(list, {'a': D(1), 'b': [D(2)]}),
         'odict': lambda: collections.OrderedDict([('b', D(1)), ('a', D(2))]),
         # host numbers of the three host types: a builtin may convert what it computes with, never what the host holds
+        'nums-none': lambda: [D(3), None, D(1), None],
         'floats': lambda: [1.5, 2.25, 3.0],
         'mixed-num': lambda: [1, 2.5, D(3), True, D('0.1')],
         'fdict': lambda: {'a': 0.5, 'b': 2, 'c': [1.5]},
